@@ -479,12 +479,14 @@ class RTCRtpReceiver:
                     ssrc=packet.ssrc,
                 )
                 if self.__rtcp_ssrc is not None and remb is not None:
-                    # send Receiver Estimated Maximum Bitrate feedback
+                    # send Receiver Estimated Maximum Bitrate feedback;
+                    # the SSRC count of a REMB is an 8-bit field
+                    bitrate, ssrcs = remb
                     rtcp_packet = RtcpPsfbPacket(
                         fmt=RTCP_PSFB_APP,
                         ssrc=self.__rtcp_ssrc,
                         media_ssrc=0,
-                        fci=pack_remb_fci(*remb),
+                        fci=pack_remb_fci(bitrate, ssrcs[-255:]),
                     )
                     await self._send_rtcp(rtcp_packet)
 
